@@ -26,7 +26,7 @@
     is idempotent, so sharing cannot be seen in any dump.  (The harness builds a fresh query object
     for every op; re-submitting an object that [add_point] pruned in place is the same as submitting
     the pruned dictionary.) *)
-From Coq Require Import List QArith Bool Arith.
+From Coq Require Import String List QArith Bool Arith.
 From PV Require Import Model.Dict Model.Terms.
 Import ListNotations.
 Local Open Scope Q_scope.
@@ -228,6 +228,24 @@ Inductive op : Type :=
     it, so that a point that returns to an earlier one ([x1 - (x1 - x0)], [(x0 + g) - g]) has the earlier
     one's decomposition; a scaling does not prune ([0*y] is [{y: 0}]). *)
 Definition pt (t : pterm) : pdict := compileP (fun _ => 0) (fun v => [(v, 1)]) t.
+
+(** Leaves that are instances of the shipped classes (PEPit/functions, PEPit/operators).  Documented rule for
+    [reuse_gradient]: the classes whose members are differentiable / single-valued FORCE it to True whatever
+    the user declares ("Smooth functions are necessarily differentiable, hence reuse_gradient is set to True"),
+    every other class FORWARDS the declared value (default False).  [class_forced] is the specification of the
+    first list; it is compared with the constructors of /repo in two ways: [Gen/Classes.v] ([force_reuse_<Cls>],
+    extracted from the source on every run; Example [C07_class_flags_agree_with_source]) and on the real
+    objects (harness: effective flag = [leaf_reuse cls declared], and two gradient queries at one point return
+    the same object iff that flag is True). *)
+Definition forced_classes : list string :=
+  ["BlockSmoothConvexFunction"; "SmoothConvexFunction"; "SmoothConvexLipschitzFunction"; "SmoothFunction";
+   "SmoothStronglyConvexFunction"; "SmoothStronglyConvexQuadraticFunction";
+   "CocoerciveOperator"; "CocoerciveStronglyMonotoneOperator"; "LinearOperator"; "LipschitzOperator";
+   "LipschitzStronglyMonotoneOperator"; "NonexpansiveOperator"; "SkewSymmetricLinearOperator";
+   "SymmetricLinearOperator"]%string.
+Definition class_forced (cls : string) : bool := existsb (String.eqb cls) forced_classes.
+(** the effective flag of [Cls(..., reuse_gradient=declared)]; the op is [NewLeaf (leaf_reuse cls declared)] *)
+Definition leaf_reuse (cls : string) (declared : bool) : bool := class_forced cls || declared.
 
 Definition combine_weights (s : state) (terms : list (fid * Q)) : wdict :=
   match terms with
